@@ -1,7 +1,11 @@
 -- Root of the `LopdfModel` library: everything that must build.
 import LopdfModel.Gen.Consts
 import LopdfModel.Gen.Tables
+import LopdfModel.Gen.SitesC13
 import LopdfModel.Model.Basic
 import LopdfModel.Model.Obj
 import LopdfModel.Model.Pages
 import LopdfModel.Thm.C12
+import LopdfModel.Model.Queries
+import LopdfModel.Model.Outlines
+import LopdfModel.Thm.C13
